@@ -298,8 +298,8 @@ func (m *Machine) scanWire(op string) {
 					}
 				}
 			}
-			if holdsR {
-				rec.NonTrivial(fmt.Sprintf("c08|%s|%s|dleq=%v", op, endpoint, inputDLEQ))
+			if holdsR && m.Opt.Owns["C08"] {
+				rec.NonTrivial(fmt.Sprintf("c08|%s|%s|dleq=%v|inputs=%d|wallets=%d|mints=%d", op, endpoint, inputDLEQ, strings.Count(string(r.Body), `"secret"`), len(m.E.Wallets), len(m.E.Mints)))
 				m.Count["c08_nontrivial"]++
 			}
 		}
